@@ -93,6 +93,18 @@ def check(ctx, rep):
         rep.ob('numbers.sign-applies-to-every-form', 'parse_number: the sign is applied to `%s`' % short(a.value, 50), ok,
                'a minus sign before this operand form is ignored (e.g. DRAW "U-=A;" moves up instead of down)', ctx.where(a))
     rep.floor('numbers.sign-applies-to-every-form', len(srcs), 3, 'operand forms')
+    # the DRAW state (pen, scale, angle) that __init__ declares is put back by reset() (CLS, SCREEN, RUN, CLEAR):
+    # after a reset DRAW starts from the centre, at scale 4 and angle 0
+    gi = ctx.fn(G + ':Graphics.__init__')
+    rs_ = ctx.fn(G + ':Graphics.reset')
+    declared = sorted(set(norm(a.targets[0]) for a in own_nodes(gi) if isinstance(a, ast.Assign) and norm(a.targets[0]).startswith('self._draw_')))
+    reset_vals = dict((norm(a.targets[0]), norm(a.value)) for a in rs_.body if isinstance(a, ast.Assign))
+    missing = [d for d in declared if d not in reset_vals]
+    rep.ob('reset.draw-state', 'Graphics.reset puts back every DRAW field declared in __init__ (%s)' % ', '.join(d.split('.')[-1] for d in declared), not missing and len(declared) >= 3
+           and reset_vals.get('self._draw_current') == 'None' and reset_vals.get('self._draw_scale') == '4' and reset_vals.get('self._draw_angle') == '0',
+           'not reset: %s; values %s' % (missing, dict((k, v) for k, v in reset_vals.items() if '_draw_' in k)), ctx.where(rs_))
+    rep.ob('reset.pen-default', 'with no DRAW pen the position is the last graphics point, which reset puts at the centre of the viewport',
+           reset_vals.get('self._last_point') == 'self.graph_view.get_mid()', '', ctx.where(rs_))
     # flags
     assigns = [(norm(a.targets[0]), norm(a.value), a) for a in own_nodes(dr) if isinstance(a, ast.Assign) and norm(a.targets[0]) in ('plot', 'goback')]
     setb = [a for t, v, a in assigns if t == 'plot' and v == 'False']
@@ -180,6 +192,7 @@ def variants(ctx):
         return lambda tree: f(mu.find_def(tree, f_name))
 
     return [
+        Va('reset-keeps-draw-pen', 'break', G, in_fn('Graphics.reset', lambda fn: mu.remove_stmt(fn, mu.text_is('self._draw_current = None'))), expect='reset.draw-state'),
         Va('minus-ignored-before-variable', 'break', 'pcbasic/basic/mlparser.py', lambda tree: _sign_literal_only(mu.find_def(tree, 'MLParser.parse_number')), expect='numbers.sign'),
         Va('E-goes-down', 'break', G, in_fn('Graphics._draw', lambda fn: mu.replace_expr(fn, mu.text_is("c in (b'U', b'E', b'H')"), "c in (b'U', b'H')")), expect='moves.direction'),
         Va('L-and-R-swapped', 'break', G, in_fn('Graphics._draw', _swap_lr), expect='moves.direction'),
